@@ -82,7 +82,7 @@ def generate(T, tier):
     }
 }
 """ % (STUBS, G.any_expr(failing, 0, "cand"), m["variant"]))
-        hs.append({"name": "c12::inv_partway", "group": "stub", "tier": "quick",
+        hs.append({"name": "c12::inv_partway", "group": "stub", "tier": "thorough",
                    "bounds": "fresh builder, symbolic %s (can fail with OutOfRange after earlier fields were written): afterwards has_run is set or the buffer is still fresh" % failing})
     m = byvar["msg1005"]
     code.append("""#[kani::proof]
@@ -95,6 +95,8 @@ def generate(T, tier):
 }
 """ % (STUBS, G.any_expr("msg1005", 0, "cand"), m["variant"]))
     hs.append({"name": "c12::fresh_eq", "group": "stub", "tier": "thorough", "bounds": "L2: fresh state with has_run = true vs MessageBuilder::new(), symbolic Msg1005"})
+    hs.append({"name": "c12::inv_fail_after_write", "group": "stub", "tier": "quick",
+               "bounds": "fresh builder + a concrete Msg1071 refused after the message number was written: used-flag up (or buffer untouched) afterwards"})
     gen.write_gen("c12_list.rs", "\n".join(code))
     return {
         "harnesses": hs,
